@@ -38,8 +38,20 @@ type Ctx struct {
 	nontrivial bool
 	key        string
 	note       string
+	excluded   []string
 	Replay     bool
 }
+
+// KnownActive reports whether known_findings.json lists key with status "known"
+// for the property under test (oracles use it for sub-check exclusions).
+func KnownActive(key string) bool { return !replayingKnown && knownActive(propID, key) }
+
+// set while the replay file of a known finding is re-executed: the oracle must
+// then run without its exclusions so that the finding is actually reproduced
+var replayingKnown bool
+
+// Excluded counts a sub-check skipped because of a recorded known finding.
+func (c *Ctx) Excluded(key string) { c.excluded = append(c.excluded, key) }
 
 // Label adds a histogram label for this case.
 func (c *Ctx) Label(l string) { c.labels = append(c.labels, l) }
@@ -267,6 +279,9 @@ func record(name string, c *Ctx, sample func() any) {
 	for _, l := range c.labels {
 		s.Labels[l]++
 	}
+	for _, k := range c.excluded {
+		s.Excluded[k]++
+	}
 	if c.nontrivial {
 		s.NonTrivial++
 		if len(distinct) < distinctCap {
@@ -380,12 +395,51 @@ func Run[C any](t *testing.T, p Prop[C]) {
 		if wd != nil {
 			wd.Stop()
 		}
+		if err != nil && os.Getenv("VERIF_SURVEY") != "" {
+			// developer triage mode: histogram of failure signatures, search continues
+			sig := surveySig(err.Error())
+			ctx.Label("FAIL " + sig)
+			mu.Lock()
+			if _, seen := surveyFirst[sig]; !seen {
+				cb, _ := json.Marshal(c)
+				surveyFirst[sig] = trunc(string(cb), 600) + "  =>  " + trunc(err.Error(), 400)
+				fmt.Printf("SURVEY %s\n   %s\n", sig, surveyFirst[sig])
+			}
+			mu.Unlock()
+			err = nil
+		}
 		record(p.Name, ctx, func() any { return p.Sample(c) })
 		if err != nil {
 			lastMsg = err.Error()
 			rt.Fatalf("%s: %v", p.Name, err)
 		}
 	})
+}
+
+var surveyFirst = map[string]string{}
+
+// surveySig strips the variable parts (digits, quoted text) of a message.
+func surveySig(msg string) string {
+	if i := strings.IndexByte(msg, '\n'); i >= 0 {
+		msg = msg[:i]
+	}
+	var b strings.Builder
+	inq := false
+	for _, r := range msg {
+		switch {
+		case r == '"' || r == '`':
+			inq = !inq
+			b.WriteRune(r)
+		case inq:
+		case r >= '0' && r <= '9':
+			if b.Len() == 0 || !strings.HasSuffix(b.String(), "N") {
+				b.WriteByte('N')
+			}
+		default:
+			b.WriteRune(r)
+		}
+	}
+	return trunc(b.String(), 110)
 }
 
 func safeOracle[C any](o func(C, *Ctx) error, c C, ctx *Ctx) (err error) {
@@ -454,7 +508,9 @@ func runReplay[C any](t *testing.T, p Prop[C]) {
 			continue
 		}
 		ctx := &Ctx{Replay: true}
+		replayingKnown = rf.Known != ""
 		oerr := safeOracle(p.Oracle, c, ctx)
+		replayingKnown = false
 		mu.Lock()
 		s := stat(p.Name)
 		s.Labels["replayed"]++
